@@ -1,9 +1,9 @@
 package main
 
 import (
-	"os"
 	"fmt"
 	"math"
+	"os"
 	"strings"
 )
 
@@ -344,14 +344,21 @@ func c02Cells(c *Ctx, dr *Driver, im *Impl, be string, full bool) bool {
 // ---- C03: bulk update / delete over collections of many sizes ----
 
 func streamC03(c *Ctx) {
-	c.Rule = "collections of size 0,1,2,10,100,1100 (thorough: also 2100, 5000 with padding, spanning many bbolt pages) with 0-3 indexes; Update/UpdateFunc/Delete with criteria and sorts on the very field being rewritten, skip/limit with a total order, DropCollection + re-create; " +
+	c.Rule = "collections of size 0,1,2,10,100,1100 three-way (impl, model, spec) and of size 2100 (thorough: also 5000, with padding) against the property's own oracle on the implementation (selection = FindAll before the call; each selected document rewritten once on its pre-call value; all others unchanged; invariant oracle, spanning many bbolt pages) with 0-3 indexes; Update/UpdateFunc/Delete with criteria and sorts on the very field being rewritten, skip/limit with a total order, DropCollection + re-create; " +
 		"updater invocations (documents seen, in order) compared with the model, raw key dump compared after every bulk operation; non-trivial = distinct bulk operation that selected at least one and not all documents"
 	dr := StartDriver(c.DriverBin)
 	defer dr.Close()
 	sizes := []int{0, 1, 2, 10, 100, 1100}
 	rounds := c.N(6, 20)
-	if !c.Quick() {
-		sizes = append(sizes, 2100, 5000)
+	// beyond the sizes the Lean model executes in reasonable time: the property's own oracle on the implementation
+	for _, be := range []string{"bbolt", "badger-mem"} {
+		for _, size := range []int{2100, 5000}[:c.N(1, 2)] {
+			for r := 0; r < c.N(1, 6); r++ {
+				if !bulkSelfRelative(c, be, size) {
+					return
+				}
+			}
+		}
 	}
 	if os.Getenv("VERIF_C03_ONLYBIG") != "" {
 		sizes = []int{1100}
@@ -529,6 +536,42 @@ func streamC08(c *Ctx) {
 	dm := Domain{IntsWithin2p53: true, NoNegTimes: true}
 	for _, be := range backendsAll {
 		im := NewImpl(be, c.Scratch)
+		{
+			// a collection of a few hundred documents (past any small-buffer threshold of a sort or window node):
+			// in-memory and index-served sorts with every kind of window, negative limits other than -1 included
+			g := NewGen(c.Rng, dm)
+			size := 300 + g.pick(40)
+			lines := []J{opLine("createCollection", J{"coll": hx("w")}), opLine("createIndex", J{"coll": hx("w"), "field": hx("x")})}
+			for start := 0; start < size; start += 100 {
+				docs := []interface{}{}
+				for j := start; j < size && j < start+100; j++ {
+					docs = append(docs, encDoc(map[string]interface{}{"_id": fixedId(j + 1), "x": int64(j % 11), "y": int64((j * 7919) % 1000), "z": int64(j % 3)}))
+				}
+				lines = append(lines, opLine("insert", J{"coll": hx("w"), "docs": docs}))
+			}
+			wins := [][2]int{{5, -3}, {10, -7}, {0, -2}, {size, -1}, {7, -7}, {3, 0}, {0, 5}, {size - 2, 10}, {250, 100}, {1, -1 << 62}}
+			for _, w := range wins {
+				for _, srt := range []interface{}{[]interface{}{[]interface{}{hx("y"), 1}}, []interface{}{[]interface{}{hx("x"), -1}}, []interface{}{[]interface{}{hx("z"), 1}, []interface{}{hx("y"), -1}}, nil} {
+					q := J{"coll": hx("w"), "skip": w[0], "limit": w[1]}
+					if srt != nil {
+						q["sort"] = srt
+					}
+					if g.pick(3) == 0 {
+						q["crit"] = J{"cmp": []interface{}{"ge", hx("x"), J{"lit": encValue(int64(g.pick(4)))}}}
+					}
+					lines = append(lines, opLine([]string{"findAll", "findAll", "count"}[g.pick(3)], J{"q": q}))
+				}
+			}
+			o := runHistory(dr, im, lines, HistOpts{})
+			recordHistory(c, lines, &o, be)
+			c.Count("large-windows")
+			if o.Index >= 0 {
+				if reportHistoryProblem(c, dr, im, lines, &o, be, HistOpts{}, "large-windows") {
+					im.Destroy()
+					return
+				}
+			}
+		}
 		for hN := 0; hN < nHist; hN++ {
 			g := NewGen(c.Rng, dm)
 			h := NewHistGen(g, 1, 2)
